@@ -277,4 +277,7 @@ class ExprMixin:
 
     # -- await ---------------------------------------------------------------------------------------------
     def e_Await(self, st, node):
+        if isinstance(node.value, ast.Call) and dotted(node.value.func) in self.registry.async_units:
+            # awaiting a coroutine of the library itself runs it to completion: its contract already says what happens
+            return self.eval(st, node.value)
         return self.bind(self.eval(st, node.value), lambda s, v: self.registry.oracle_await(self, s, v))
